@@ -999,3 +999,106 @@ func TestC15KnownFindings(t *testing.T) {
 		}
 	}
 }
+
+// TestC15ResultObjectWithExtraResults: a constructor that returns a result object, further
+// values and an error (func() (Out, *Extra, error)) is accepted at registration. Whatever
+// happens to the further values, its error is the constructor's error: reported, wrapped.
+func TestC15ResultObjectWithExtraResults(t *testing.T) {
+	col := evid.New("C15", "result-object-with-extra-results", "constructors of the shape func(...) (Out, X..., error) with 1-2 named result fields and 0-2 further results between the result object and the error, any lifetime, registered through Add*; the constructor fails (error) on a generated call; the fields are resolved from the provider and a scope; oracle: registration either rejects the shape or - if it accepts it - Build / the resolution during which the constructor failed returns an error that wraps the constructor's own error, and no panic escapes; non-trivial = at least one further result")
+	defer col.Flush()
+	type extra struct{ n int }
+	rapid.Check(t, func(rt *rapid.T) {
+		life := rapid.IntRange(0, 2).Draw(rt, "life")
+		nextra := rapid.IntRange(0, 2).Draw(rt, "nextra")
+		failAt := rapid.IntRange(1, 3).Draw(rt, "failAt")
+		ot := reflect.StructOf([]reflect.StructField{
+			{Name: "Out", Type: reflect.TypeOf(godi.Out{}), Anonymous: true},
+			{Name: "A", Type: reflect.TypeOf(&rkPtr{}), Tag: `name:"xa"`},
+		})
+		outs := []reflect.Type{ot}
+		for i := 0; i < nextra; i++ {
+			outs = append(outs, reflect.TypeOf(&extra{}))
+		}
+		outs = append(outs, reflect.TypeOf((*error)(nil)).Elem())
+		boom := fmt.Errorf("constructor-error-of-the-result-object-constructor")
+		calls := 0
+		ctor := reflect.MakeFunc(reflect.FuncOf(nil, outs, false), func([]reflect.Value) []reflect.Value {
+			calls++
+			res := make([]reflect.Value, len(outs))
+			for i, o := range outs {
+				res[i] = reflect.Zero(o)
+			}
+			v := reflect.New(ot).Elem()
+			v.Field(1).Set(reflect.ValueOf(&rkPtr{c: &rkCount{id: calls}}))
+			res[0] = v
+			if calls == failAt {
+				res[len(outs)-1] = reflect.ValueOf(&boom).Elem()
+			}
+			return res
+		}).Interface()
+		canon := fmt.Sprintf("%s func() (Out{A `name:\"xa\"`}, %d further results, error), failing on call %d", lifeName(life), nextra, failAt)
+		col.Case(nextra > 0, canon, canon)
+		coll := godi.NewCollection()
+		var err error
+		var pv any
+		func() {
+			defer func() { pv = recover() }()
+			switch life {
+			case 0:
+				err = coll.AddSingleton(ctor)
+			case 1:
+				err = coll.AddScoped(ctor)
+			default:
+				err = coll.AddTransient(ctor)
+			}
+		}()
+		if pv != nil {
+			rt.Fatalf("VIOLATION C15/no-panic [result-object-with-extra-results/register]: registration panicked: %v\n%s", pv, canon)
+		}
+		if err != nil {
+			return // the shape is refused: fine
+		}
+		check := func(what string, e error) {
+			if calls == failAt && e == nil {
+				rt.Fatalf("VIOLATION C15/reported [result-object-with-extra-results]: %s succeeded although the constructor returned an error on that call\n%s", what, canon)
+			}
+			if calls == failAt && !errors.Is(e, boom) {
+				rt.Fatalf("VIOLATION C15/wraps-constructor-error [result-object-with-extra-results]: %s returned %v, which does not wrap the constructor's own error\n%s", what, firstLine(e), canon)
+			}
+		}
+		var p godi.Provider
+		func() {
+			defer func() { pv = recover() }()
+			p, err = coll.Build()
+		}()
+		if pv != nil {
+			rt.Fatalf("VIOLATION C15/no-panic [result-object-with-extra-results/build]: Build panicked: %v\n%s", pv, canon)
+		}
+		if life == 0 && calls >= 1 {
+			check("Build", err)
+		}
+		if err != nil || p == nil {
+			return
+		}
+		defer p.Close()
+		for i := 0; i < 3; i++ {
+			sc, serr := p.CreateScope(context.Background())
+			if serr != nil {
+				break
+			}
+			before := calls
+			var gerr error
+			func() {
+				defer func() { pv = recover() }()
+				_, gerr = sc.GetKeyed(reflect.TypeOf(&rkPtr{}), "xa")
+			}()
+			if pv != nil {
+				rt.Fatalf("VIOLATION C15/no-panic [result-object-with-extra-results/resolve]: GetKeyed panicked: %v\n%s", pv, canon)
+			}
+			if calls != before {
+				check("GetKeyed(*rkPtr, \"xa\")", gerr)
+			}
+			_ = sc.Close()
+		}
+	})
+}
